@@ -67,7 +67,7 @@ fn finding(stderr: &str, prop: &str) -> Option<(String, String)> {
         return Some((kind.to_string(), format!("build() panicked under the fuzzer: {msg}")));
     }
     if stderr.contains("ERROR: libFuzzer: timeout") {
-        return Some(("fuzz:timeout".into(), "one execution exceeded 10 s (possible non-termination)".into()));
+        return Some(("fuzz:timeout".into(), "one execution exceeded the fuzzer's per-input time limit".into()));
     }
     None
 }
@@ -94,7 +94,7 @@ pub fn stage(ctx: &Ctx, prop: &str, seconds: u64, st: &mut Stats, extra: &mut Ve
     for w in 0..workers {
         let ch = Command::new(&bin)
             .arg(format!("-max_total_time={seconds}"))
-            .args(["-timeout=10", "-use_value_profile=1", "-max_len=160", "-print_final_stats=1", "-rss_limit_mb=2048"])
+            .args(["-timeout=60", "-use_value_profile=1", "-max_len=160", "-print_final_stats=1", "-rss_limit_mb=2048"])
             .arg(format!("-seed={}", (ctx.seed as u32).wrapping_add(w as u32 * 7919).max(1)))
             .arg(format!("-artifact_prefix={}/", art.display()))
             .arg(&corpus)
@@ -136,6 +136,26 @@ pub fn stage(ctx: &Ctx, prop: &str, seconds: u64, st: &mut Stats, extra: &mut Ve
                 findings += 1;
                 let artifact = stderr.lines().find_map(|l| l.split("Test unit written to ").nth(1)).map(|s| s.trim().to_string());
                 let bytes = artifact.as_ref().and_then(|a| std::fs::read(a).ok()).unwrap_or_default();
+                if kind == "fuzz:timeout" {
+                    // a wall-clock limit is not a verdict on a loaded machine: the input is run again, alone, with a
+                    // generous limit. Finishing there = the machine was busy (recorded, not a finding); not finishing
+                    // within 180 s (normal: a millisecond) = non-termination, which is C10's clause
+                    let f = work.join(format!("timeout-{w}.bin"));
+                    let _ = std::fs::write(&f, &bytes);
+                    let t1 = Instant::now();
+                    let alone = Command::new(&bin).arg("-timeout=180").arg(&f).env("VERIF_FUZZ_PROPS", prop).stdout(Stdio::null()).stderr(Stdio::piped()).output();
+                    let finished = matches!(&alone, Ok(o) if o.status.success());
+                    if finished {
+                        findings -= 1;
+                        st.count("fuzz_inputs_slow_under_load_that_finish_alone", 1);
+                        st.notes.push(format!("fuzz worker {w}: one input exceeded 60 s while the machine was loaded and finished alone in {:.1} s (not a finding)", t1.elapsed().as_secs_f64()));
+                        continue;
+                    }
+                    if prop != "C10" {
+                        st.inconclusive(format!("fuzz stage: worker {w}: one input does not finish within 180 s even alone (non-termination is C10's clause; artifact {})", crate::adapter::hex(&bytes)));
+                        continue;
+                    }
+                }
                 if seen.insert((kind.clone(), oracle::rng::fnv(&bytes))) {
                     st.violation(prop, &kind, format!("{detail} (found by the coverage-guided stage, worker {w})"), json!({"fam": "fuzz-artifact", "hex": crate::adapter::hex(&bytes), "props": prop}));
                 }
